@@ -44,6 +44,35 @@ class _Mask(ast.NodeTransformer):
         return ast.copy_location(ast.JoinedStr(values=vals), node)
 
 
+class _RenameLocals(ast.NodeTransformer):
+    def __init__(self, names):
+        self.names = names
+
+    def visit_Name(self, node):
+        if node.id in self.names:
+            return ast.copy_location(ast.Name(id=self.names[node.id], ctx=node.ctx), node)
+        return node
+
+
+def canon_locals(fn):
+    """A copy of `fn` in which every local variable (a name the body binds, not a parameter) is called
+    L0, L1, ... in the order of its first binding: the names of locals are the author's business, the
+    skeleton and the templates are compared after this renaming."""
+    import copy
+    fn = copy.deepcopy(fn)
+    a = fn.args
+    params = {x.arg for x in a.posonlyargs + a.args + a.kwonlyargs}
+    params |= {x.arg for x in (a.vararg, a.kwarg) if x is not None}
+    stores = sorted({(n.lineno, n.col_offset, n.id) for n in ast.walk(fn)
+                     if isinstance(n, ast.Name) and isinstance(n.ctx, ast.Store) and n.id not in params})
+    names = {}
+    for _, _, ident in stores:
+        names.setdefault(ident, f"L{len(names)}")
+    fn = _RenameLocals(names).visit(fn)
+    ast.fix_missing_locations(fn)
+    return fn
+
+
 def skeleton(fn) -> str:
     import copy
     fn2 = copy.deepcopy(fn)
@@ -136,7 +165,7 @@ def translate_messages(check_skeletons=True):
     tree = parse_module(WF)
     out = {}
     skel = {}
-    fns = {name: find_function(tree, name) for name in EXPECTED_SKELETONS}
+    fns = {name: canon_locals(find_function(tree, name)) for name in EXPECTED_SKELETONS}
     for name, fn in fns.items():
         skel[name] = skeleton(fn)
     if check_skeletons:
@@ -175,8 +204,9 @@ def translate_messages(check_skeletons=True):
     fn = fns["_file_collision_message"]
     if args_of(fn) != ["path", "decl_a", "decl_b"]:
         raise TranslatorError("_file_collision_message: signature changed")
-    holes = {"verb1": 0, "verb2": 1, "decl1.creator": 2, "decl2.creator": 3}
-    clashes = assigned_strings(fn, "clash", "_file_collision_message")
+    # locals in binding order: L0, L1 = sorted parties; L2, L3 = their verbs; L4 = clash; L5 = hint
+    holes = {"L2": 0, "L3": 1, "L0.creator": 2, "L1.creator": 3}
+    clashes = assigned_strings(fn, "L4", "_file_collision_message")
     if len(clashes) != 3:
         raise TranslatorError("_file_collision_message: expected three clash variants")
     c_same_role, c_same_creator, c_diff = (template(c, holes, "_file_collision_message") for c in clashes)
@@ -187,13 +217,13 @@ def translate_messages(check_skeletons=True):
     rets = [n for n in ast.walk(fn) if isinstance(n, ast.Return)]
     if len(rets) != 1:
         raise TranslatorError("_file_collision_message: expected one return")
-    t = template(rets[0].value, {"path": 0, "clash": 1, "hint": 2}, "_file_collision_message")
+    t = template(rets[0].value, {"path": 0, "L4": 1, "L5": 2}, "_file_collision_message")
     if used_holes(t) != [0, 1, 2]:
         raise TranslatorError("_file_collision_message: final text does not print path, clash, hint")
     out["file_collision"] = t
     # the sort that fixes the order of the two parties
     srt = [n for n in body_without_docstring(fn) if isinstance(n, ast.Assign)][0]
-    if ast.unparse(srt) not in ("(decl1, decl2) = sorted([decl_a, decl_b])", "decl1, decl2 = sorted([decl_a, decl_b])"):
+    if ast.unparse(srt) not in ("(L0, L1) = sorted([decl_a, decl_b])", "L0, L1 = sorted([decl_a, decl_b])"):
         raise TranslatorError(f"_file_collision_message: party order is not sorted([decl_a, decl_b]): {ast.unparse(srt)}")
     # Decl field order (the sort key)
     decl = [n for n in ast.walk(tree) if isinstance(n, ast.ClassDef) and n.name == "Decl"]
@@ -209,8 +239,8 @@ def translate_messages(check_skeletons=True):
     fn = fns["_duplicate_step_message"]
     if args_of(fn) != ["step_label", "creator_a", "creator_b"]:
         raise TranslatorError("_duplicate_step_message: signature changed")
-    holes = {"creator1": 0, "creator2": 1}
-    clashes = assigned_strings(fn, "clash", "_duplicate_step_message")
+    holes = {"L0": 0, "L1": 1}      # L0, L1 = the sorted creators; L2 = clash
+    clashes = assigned_strings(fn, "L2", "_duplicate_step_message")
     if len(clashes) != 2:
         raise TranslatorError("_duplicate_step_message: expected two clash variants")
     out["dupstep_twice"] = template(clashes[0], holes, "_duplicate_step_message")
@@ -218,7 +248,7 @@ def translate_messages(check_skeletons=True):
     if used_holes(out["dupstep_twice"]) != [0] or used_holes(out["dupstep_both"]) != [0, 1]:
         raise TranslatorError("_duplicate_step_message: clash variants print unexpected parties")
     rets = [n for n in ast.walk(fn) if isinstance(n, ast.Return)]
-    out["dupstep"] = template(rets[0].value, {"step_label": 0, "clash": 1}, "_duplicate_step_message")
+    out["dupstep"] = template(rets[0].value, {"step_label": 0, "L2": 1}, "_duplicate_step_message")
     if used_holes(out["dupstep"]) != [0, 1]:
         raise TranslatorError("_duplicate_step_message: final text changed")
     # _duplicate_static_tree_message ----------------------------------------------------------
@@ -226,7 +256,7 @@ def translate_messages(check_skeletons=True):
     if args_of(fn) != ["tree_path", "creator_a", "creator_b"]:
         raise TranslatorError("_duplicate_static_tree_message: signature changed")
     rets = [n for n in ast.walk(fn) if isinstance(n, ast.Return)]
-    out["duptree"] = template(rets[0].value, {"tree_path": 0, "creator1": 1, "creator2": 2},
+    out["duptree"] = template(rets[0].value, {"tree_path": 0, "L0": 1, "L1": 2},
                               "_duplicate_static_tree_message")
     if used_holes(out["duptree"]) != [0, 1, 2]:
         raise TranslatorError("_duplicate_static_tree_message: final text changed")
